@@ -4,7 +4,7 @@
    function into a term of type [stmt] on every run; Props/Tie/minipy_tie.v proves that running that
    term agrees with the hand-written models for ALL inputs (per-character step equalities by
    exhaustive evaluation, lifted over the loop by the lemmas at the end of this file). *)
-From Coq Require Import List String Ascii ZArith Bool Lia.
+From Coq Require Import List String Ascii ZArith QArith Qreduction Bool Lia.
 Import ListNotations.
 Local Open Scope Z_scope.
 
@@ -12,6 +12,7 @@ Inductive value :=
 | VNone
 | VBool (b : bool)
 | VInt (z : Z)
+| VQ (q : Q)        (* a Python float, tracked as the exact rational of its decimal literal / exact arithmetic; always Qred-normal *)
 | VStr (s : list ascii)
 | VList (l : list value)
 | VOpaque          (* a number whose value the fragment does not track (a float quotient) *)
@@ -25,7 +26,7 @@ Inductive expr :=
 | ELt (a b : expr) | ELe (a b : expr) | EGt (a b : expr) | EGe (a b : expr)
 | EIn (a b : expr) | ENotIn (a b : expr)
 | ENot (a : expr) | EAnd (a b : expr) | EOr (a b : expr)
-| EAdd (a b : expr) | ESub (a b : expr) | EDiv (a b : expr)
+| EAdd (a b : expr) | ESub (a b : expr) | EMul (a b : expr) | EDiv (a b : expr)
 | ELen (a : expr)
 | EIndex (a i : expr)
 | ECount (a b : expr)
@@ -33,6 +34,9 @@ Inductive expr :=
 | EUpper (a : expr)
 | EIsInt (a : expr)
 | EToInt (a : expr)
+| EStrip (a : expr)
+| ESlice (a lo hi : expr)       (* a[lo:hi]; a bound may be EConst VNone *)
+| ECall (f : string) (args : list expr)   (* a call of another function of the library: interpreted by the table [prim] *)
 | EListLit (l : list expr).
 
 Inductive stmt :=
@@ -42,6 +46,7 @@ Inductive stmt :=
 | SAppend (x : string) (e : expr)
 | SIf (c : expr) (a b : stmt)
 | SFor (x : string) (e : expr) (body : stmt)
+| SWhile (c : expr) (body : stmt)
 | SRaise
 | SReturn (e : expr)
 | SContinue
@@ -74,6 +79,9 @@ Fixpoint veqb (a b : value) {struct a} : bool :=
   | VNone, VNone => true
   | VBool x, VBool y => Bool.eqb x y
   | VInt x, VInt y => Z.eqb x y
+  | VQ x, VQ y => Qeq_bool x y
+  | VInt x, VQ y => Qeq_bool (inject_Z x) y
+  | VQ x, VInt y => Qeq_bool x (inject_Z y)
   | VStr x, VStr y => ascii_list_eqb x y
   | VList x, VList y =>
       (fix go (x y : list value) : bool :=
@@ -99,6 +107,7 @@ Definition truthy (v : value) : value :=
   | VNone => VBool false
   | VBool b => VBool b
   | VInt z => VBool (negb (Z.eqb z 0))
+  | VQ q => VBool (negb (Qeq_bool q 0))
   | VStr s => VBool (match s with [] => false | _ => true end)
   | VList l => VBool (match l with [] => false | _ => true end)
   | VOpaque => VOpaque
@@ -139,20 +148,43 @@ Definition int_of_str (s : list ascii) : option Z :=
       else digits_val 0 s
   end.
 
+Fixpoint drop_ws (cs : list ascii) : list ascii :=
+  match cs with [] => [] | c :: r => if is_ws_py c then drop_ws r else cs end.
+
+(* Python slice bounds on a sequence of length n: None = open end; negative = from the end; clipped *)
+Definition clip (n : nat) (i : Z) : nat :=
+  let m := Z.of_nat n in
+  let j := if i <? 0 then m + i else i in
+  Z.to_nat (Z.max 0 (Z.min m j)).
+Definition slice_bounds (n : nat) (lo hi : value) : option (nat * nat) :=
+  match (match lo with VNone => Some 0%nat | VInt i => Some (clip n i) | _ => None end),
+        (match hi with VNone => Some n | VInt i => Some (clip n i) | _ => None end) with
+  | Some i, Some j => Some (i, j)
+  | _, _ => None
+  end.
+
 Definition index_val {A} (l : list A) (i : Z) : option A :=
   let n := Z.of_nat (List.length l) in
   let j := if i <? 0 then n + i else i in
   if (j <? 0) || (n <=? j) then None else nth_error l (Z.to_nat j).
 
-Definition cmp_int (f : Z -> Z -> bool) (a b : value) : value :=
+Definition as_Q (v : value) : option Q :=
+  match v with VInt z => Some (inject_Z z) | VQ q => Some q | VBool b => Some (if b then 1 else 0)%Q | _ => None end.
+
+Definition cmp_int (f : Z -> Z -> bool) (g : Q -> Q -> bool) (a b : value) : value :=
   match bad2 a b with
   | Some e => e
   | None => match a, b with
             | VInt x, VInt y => VBool (f x y)
             | VOpaque, _ | _, VOpaque => VOpaque
-            | _, _ => VErr
+            | _, _ => match as_Q a, as_Q b with
+                      | Some x, Some y => VBool (g x y)
+                      | _, _ => VErr
+                      end
             end
   end.
+
+Definition Qltb (x y : Q) : bool := negb (Qle_bool y x).
 
 Definition v_in (a b : value) : value :=
   match bad2 a b with
@@ -167,6 +199,12 @@ Definition v_in (a b : value) : value :=
 Definition v_not (a : value) : value :=
   match truthy a with VBool b => VBool (negb b) | other => other end.
 
+Section Interp.
+(* calls of other library functions are interpreted by [prim] (their own ties justify the table);
+   every while-loop may iterate at most [wfuel] times (running out is OErr, excluded by the ties) *)
+Variable prim : string -> list value -> value.
+Variable wfuel : nat.
+
 Fixpoint eval (e : expr) (r : env) {struct e} : value :=
   match e with
   | EConst v => v
@@ -175,10 +213,10 @@ Fixpoint eval (e : expr) (r : env) {struct e} : value :=
                match bad2 x y with Some e => e | None => VBool (veqb x y) end
   | ENe a b => let x := eval a r in let y := eval b r in
                match bad2 x y with Some e => e | None => VBool (negb (veqb x y)) end
-  | ELt a b => cmp_int Z.ltb (eval a r) (eval b r)
-  | ELe a b => cmp_int Z.leb (eval a r) (eval b r)
-  | EGt a b => cmp_int Z.gtb (eval a r) (eval b r)
-  | EGe a b => cmp_int Z.geb (eval a r) (eval b r)
+  | ELt a b => cmp_int Z.ltb Qltb (eval a r) (eval b r)
+  | ELe a b => cmp_int Z.leb Qle_bool (eval a r) (eval b r)
+  | EGt a b => cmp_int Z.gtb (fun x y => Qltb y x) (eval a r) (eval b r)
+  | EGe a b => cmp_int Z.geb (fun x y => Qle_bool y x) (eval a r) (eval b r)
   | EIn a b => v_in (eval a r) (eval b r)
   | ENotIn a b => v_not (v_in (eval a r) (eval b r))
   | ENot a => v_not (eval a r)
@@ -199,13 +237,33 @@ Fixpoint eval (e : expr) (r : env) {struct e} : value :=
                           | VInt p, VInt q => VInt (p + q)
                           | VStr p, VStr q => VStr (p ++ q)
                           | VList p, VList q => VList (p ++ q)
-                          | _, _ => VErr
+                          | _, _ => match as_Q x, as_Q y with
+                                    | Some p, Some q => VQ (Qred (p + q))
+                                    | _, _ => VErr
+                                    end
                           end
                 end
   | ESub a b => let x := eval a r in let y := eval b r in
                 match bad2 x y with
                 | Some e => e
-                | None => match x, y with VInt p, VInt q => VInt (p - q) | _, _ => VErr end
+                | None => match x, y with
+                          | VInt p, VInt q => VInt (p - q)
+                          | _, _ => match as_Q x, as_Q y with
+                                    | Some p, Some q => VQ (Qred (p - q))
+                                    | _, _ => VErr
+                                    end
+                          end
+                end
+  | EMul a b => let x := eval a r in let y := eval b r in
+                match bad2 x y with
+                | Some e => e
+                | None => match x, y with
+                          | VInt p, VInt q => VInt (p * q)
+                          | _, _ => match as_Q x, as_Q y with
+                                    | Some p, Some q => VQ (Qred (p * q))
+                                    | _, _ => VErr
+                                    end
+                          end
                 end
   | EDiv a b => let x := eval a r in let y := eval b r in
                 match bad2 x y with
@@ -262,6 +320,30 @@ Fixpoint eval (e : expr) (r : env) {struct e} : value :=
                 | VExc => VExc
                 | _ => VErr
                 end
+  | EStrip a => match eval a r with
+                | VStr s => VStr (rev (drop_ws (rev (drop_ws s))))
+                | VExc => VExc
+                | _ => VErr
+                end
+  | ESlice a lo hi =>
+      match eval a r, eval lo r, eval hi r with
+      | VErr, _, _ | _, VErr, _ | _, _, VErr => VErr
+      | VExc, _, _ | _, VExc, _ | _, _, VExc => VExc
+      | VStr s, l, h => match slice_bounds (List.length s) l h with
+                        | Some (i, j) => VStr (firstn (j - i) (skipn i s))
+                        | None => VErr
+                        end
+      | VList s, l, h => match slice_bounds (List.length s) l h with
+                         | Some (i, j) => VList (firstn (j - i) (skipn i s))
+                         | None => VErr
+                         end
+      | _, _, _ => VErr
+      end
+  | ECall f args =>
+      let vs := (fix go (l : list expr) : list value := match l with [] => [] | a :: l' => eval a r :: go l' end) args in
+      if existsb (fun v => match v with VErr => true | _ => false end) vs then VErr
+      else if existsb (fun v => match v with VExc => true | _ => false end) vs then VExc
+      else prim f vs
   | EListLit l =>
       (fix go (l : list expr) : value :=
          match l with
@@ -329,6 +411,21 @@ Fixpoint exec (s : stmt) (r : env) {struct s} : outcome :=
                     end) xs r
              end
       end
+  | SWhile c body =>
+      (fix loop (k : nat) (r : env) : outcome :=
+         match k with
+         | O => OErr
+         | S k' => match truthy (eval c r) with
+                   | VBool false => ONorm r
+                   | VBool true => match exec body r with
+                                   | ONorm r' | OCont r' => loop k' r'
+                                   | OBreak r' => ONorm r'
+                                   | other => other
+                                   end
+                   | VExc => ORaise
+                   | _ => OErr
+                   end
+         end) wfuel r
   | SRaise => ORaise
   | SReturn e => match eval e r with VExc => ORaise | VErr => OErr | v => ORet v end
   | SContinue => OCont r
@@ -386,7 +483,7 @@ Lemma exec_split s : forall pre x e body rest r, split_at_for s = Some (pre, (x,
              | other => other
              end.
 Proof.
-  induction s as [| a IHa b IHb | y ey | y ey | c a IHa b IHb | y ey bd IHbd | | ey | |];
+  induction s as [| a IHa b IHb | y ey | y ey | c a IHa b IHb | y ey bd IHbd | c bd IHbd | | ey | |];
     intros pre x e body rest r H; cbn [split_at_for] in H; try discriminate H.
   - assert (Hgen : forall pre' l' rest', split_at_for b = Some (pre', l', rest') -> pre = a :: pre' -> (x, e, body) = l' -> rest = rest' ->
                    exec (SSeq a b) r = match exec_list pre r with
@@ -438,3 +535,46 @@ Section LoopRule.
       + rewrite Hb. reflexivity.
   Qed.
 End LoopRule.
+
+(* a right-nested sequence is the list of its statements *)
+Fixpoint spine (s : stmt) : list stmt :=
+  match s with SSeq a b => a :: spine b | _ => [s] end.
+
+Lemma exec_spine s : forall r, exec s r = exec_list (spine s) r.
+Proof.
+  induction s as [| a IHa b IHb | | | | | | | | |]; intros r; cbn [spine exec_list];
+    try (destruct (exec _ r); reflexivity).
+  rewrite exec_seq. destruct (exec a r); try reflexivity. apply IHb.
+Qed.
+
+(* the loop of SWhile, as a function of the remaining fuel *)
+Fixpoint run_while (c : expr) (body : stmt) (k : nat) (r : env) : outcome :=
+  match k with
+  | O => OErr
+  | S k' => match truthy (eval c r) with
+            | VBool false => ONorm r
+            | VBool true => match exec body r with
+                            | ONorm r' | OCont r' => run_while c body k' r'
+                            | OBreak r' => ONorm r'
+                            | other => other
+                            end
+            | VExc => ORaise
+            | _ => OErr
+            end
+  end.
+
+Lemma exec_while c body r : exec (SWhile c body) r = run_while c body wfuel r.
+Proof.
+  cbn [exec]. generalize wfuel. intros k. revert r. induction k as [|k IH]; intros r; cbn [run_while]; [reflexivity|].
+  destruct (truthy (eval c r)); try reflexivity. destruct b; [|reflexivity].
+  destruct (exec body r); try reflexivity; apply IH.
+Qed.
+End Interp.
+
+Arguments exec_for {prim wfuel}.
+Arguments exec_seq {prim wfuel}.
+Arguments exec_split {prim wfuel}.
+Arguments exec_while {prim wfuel}.
+Arguments exec_spine {prim wfuel}.
+Arguments run_loop_rule {prim wfuel S}.
+Definition noprim : string -> list value -> value := fun _ _ => VErr.
